@@ -482,6 +482,9 @@ def run(facts, chk, tier, only=None):
     from . import cli_e2e
     # the subcommand through ska::main() itself (argument parser replaced by a constructed Args value): hand-over of CLI values, width dispatch
     chk.guard('C09.cli', 'C09.cli:run0', lambda: cli_e2e.check_align(facts, chk, 'C09.cli', tier))
+    from . import cli_more
+    chk.guard('C09.cli', 'C09.cli:run8', lambda: cli_more.check_lo_arm(facts, chk, 'C09.cli', tier))
+    chk.guard('C09.cli', 'C09.cli:run9', lambda: cli_more.check_cov_arm(facts, chk, 'C09.cli', tier))
     chk.guard('C09.cli', 'C09.cli:run1', lambda: cli_e2e.check_map(facts, chk, 'C09.cli', tier, 'Aln'))
     chk.guard('C09.cli', 'C09.cli:run2', lambda: cli_e2e.check_weed(facts, chk, 'C09.cli', tier))
     chk.guard('C09.cli', 'C09.cli:run3', lambda: cli_e2e.check_merge_delete(facts, chk, 'C09.cli', tier, 'delete'))
